@@ -1,5 +1,20 @@
 ------------------------------- MODULE MCNode -------------------------------
 (* Model-checking instance of Node.tla.  All bounds are scalar CONSTANTS assigned in Node_*.cfg;
-   no CONSTRAINT, no VIEW (bounds are action guards, so liveness checking is sound). *)
+   no CONSTRAINT, no VIEW (bounds are action guards, so liveness checking is sound).
+
+   Configurations (measured on this machine, 4 workers, box shared with other jobs):
+     Node_quick.cfg      assumptions on, chain <= 3, Retained 0: P1-P4 + liveness                17 582 states
+     Node_safety4.cfg    assumptions on, chain <= 4, Retained 1, 2 L1 heads, 1 reorg: P1-P4     209 173 states
+     Node_race_stuck.cfg AssumeSlowL1 off: P2_NeverStuck fails (23-step counterexample, G02-H1) ~125 000 states
+     Node_race_head.cfg  AssumeSlowL1 off: P1_KeepMax fails (16 steps, G02-H2)                   ~40 000 states
+     Node_cover.cfg      assumptions on, restart + view, chain <= 3, Retained 0, -coverage      397 641 states
+     Node_witness_*.cfg  vacuity witnesses (prune while on an abandoned fork, revert after prune, L1 ahead)
+     Node_hashfix_stuck  AssumeSlowL1 off + FixHashChecks: P2_NeverStuck still fails (catch-up path)
+     Node_floorlag.cfg   strong P5 (floor always catches up) fails: lasso, last head event lost    17 582 states
+     Node_live4.cfg      assumptions on, chain <= 4, Retained 1, L2PerPrune 2: safety + liveness  82 820 states
+     Node_lag1.cfg       assumptions on, header carve-out Lag = 1, chain <= 4                    326 270 states
+     Node_thorough.cfg   assumptions on, chain <= 5, Retained 2, 2 reorgs, 2 L1, 1 restart     9 762 968 states
+   (with a view AND a restart the chain <= 4 configuration has 8.6 M states; the view is independent of the
+   rest and is therefore only enabled in Node_cover.cfg) *)
 EXTENDS Node
 =============================================================================
